@@ -9,6 +9,7 @@ import (
 	"os"
 	"path/filepath"
 	"sort"
+	"time"
 
 	"github.com/luno/workflow/verifharness/adapters"
 	"github.com/luno/workflow/verifharness/leandrv"
@@ -159,12 +160,17 @@ func main() {
 		}
 		return
 	}
-	if name == "sim-random" || name == "sim-adversary" || name == "sim-pause" || name == "sim-timeouts" {
+	if name == "sim-random" || name == "sim-adversary" || name == "sim-pause" || name == "sim-pause-past" || name == "sim-timeouts" {
+		if name == "sim-pause-past" {
+			// the simulated workflow clock starts in the PAST of the wall clock (the other suites: in its future), so that code which
+			// consults the wall clock instead of the workflow clock errs in the other direction
+			sim.Epoch = time.Date(2001, 1, 1, 0, 0, 0, 0, time.UTC)
+		}
 		feat := sim.AllFeatures
 		switch name {
 		case "sim-adversary":
 			feat.Stale, feat.Adversary, feat.Handles, feat.TwoTimeouts = true, true, true, true
-		case "sim-pause": // error counting: counts configured almost everywhere, the same error over and over, no re-entrancy
+		case "sim-pause-past", "sim-pause": // error counting: counts configured almost everywhere, the same error over and over, no re-entrancy
 			feat.ForcePause, feat.ErrBias, feat.BadOutcomes, feat.Nested, feat.TimeoutHeavy, feat.Faults = true, 700, 450, false, true, 40
 		case "sim-timeouts": // timers: mostly timeout statuses, clock moved around expiry, no re-entrancy
 			feat.TimeoutHeavy, feat.Nested, feat.BadOutcomes = true, false, 200
